@@ -70,7 +70,8 @@ def main():
             outdir = os.path.join("/verif/seeded", name)
             os.makedirs(outdir, exist_ok=True)
             for f in ("patch.diff", "zz_seed_demo_test.go", "demo_path.txt"):
-                shutil.copy(os.path.join(src, f), os.path.join(outdir, f))
+                if os.path.abspath(src) != os.path.abspath(outdir):
+                    shutil.copy(os.path.join(src, f), os.path.join(outdir, f))
             prev = {}
             mp = os.path.join(outdir, "meta.json")
             if os.path.exists(mp):
